@@ -8,38 +8,38 @@ variable {M K R : Type}
 /-- the two flags `Collection.Add` forces -/
 def withAddFlags (wr : WriteReq M K) : WriteReq M K := { wr with expectAbsent := true, createIfAbsent := true }
 
-theorem applyW_addFlags (ops : MsgOps M K) (wr : WriteReq M K) (o : WOpt M K) :
-    applyW ops (withAddFlags wr) o = withAddFlags (applyW ops wr o) := by
+theorem applyW_addFlags (ops : MsgOps M K) (cat : K → K → K) (wr : WriteReq M K) (o : WOpt M K) :
+    applyW ops cat (withAddFlags wr) o = withAddFlags (applyW ops cat wr o) := by
   cases o <;> try rfl
   case moreUpdateMask m =>
     cases h : wr.updateMask with
     | none => simp [applyW, withAddFlags, h]
     | some u => simp [applyW, withAddFlags, h]
 
-theorem foldl_addFlags (ops : MsgOps M K) (opts : List (WOpt M K)) :
-    ∀ wr : WriteReq M K, opts.foldl (applyW ops) (withAddFlags wr) = withAddFlags (opts.foldl (applyW ops) wr) := by
+theorem foldl_addFlags (ops : MsgOps M K) (cat : K → K → K) (opts : List (WOpt M K)) :
+    ∀ wr : WriteReq M K, opts.foldl (applyW ops cat) (withAddFlags wr) = withAddFlags (opts.foldl (applyW ops cat) wr) := by
   induction opts with
   | nil => intro wr; rfl
   | cons o opts ih => intro wr; simp only [List.foldl_cons, applyW_addFlags, ih]
 
-theorem computeWriteConfig_add_front (ops : MsgOps M K) (opts : List (WOpt M K)) :
-    computeWriteConfig ops (.expectAbsent :: .createIfAbsent :: opts) = withAddFlags (computeWriteConfig ops opts) := by
+theorem computeWriteConfig_add_front (ops : MsgOps M K) (cat : K → K → K) (opts : List (WOpt M K)) :
+    computeWriteConfig ops cat (.expectAbsent :: .createIfAbsent :: opts) = withAddFlags (computeWriteConfig ops cat opts) := by
   unfold computeWriteConfig
   simp only [List.foldl_cons]
-  exact foldl_addFlags ops opts {}
+  exact foldl_addFlags ops cat opts {}
 
-theorem computeWriteConfig_add_back (ops : MsgOps M K) (opts : List (WOpt M K)) :
-    computeWriteConfig ops (opts ++ [.expectAbsent, .createIfAbsent]) = withAddFlags (computeWriteConfig ops opts) := by
+theorem computeWriteConfig_add_back (ops : MsgOps M K) (cat : K → K → K) (opts : List (WOpt M K)) :
+    computeWriteConfig ops cat (opts ++ [.expectAbsent, .createIfAbsent]) = withAddFlags (computeWriteConfig ops cat opts) := by
   unfold computeWriteConfig
   simp only [List.foldl_append, List.foldl_cons, List.foldl_nil]
   rfl
 
 /-- flags are never unset -/
-theorem applyW_flags_mono (ops : MsgOps M K) (wr : WriteReq M K) (o : WOpt M K) :
-    (wr.expectAbsent = true → (applyW ops wr o).expectAbsent = true) ∧
-    (wr.createIfAbsent = true → (applyW ops wr o).createIfAbsent = true) ∧
-    (wr.genEmptyID = true → (applyW ops wr o).genEmptyID = true) ∧
-    (wr.nilWritable = true → (applyW ops wr o).nilWritable = true) := by
+theorem applyW_flags_mono (ops : MsgOps M K) (cat : K → K → K) (wr : WriteReq M K) (o : WOpt M K) :
+    (wr.expectAbsent = true → (applyW ops cat wr o).expectAbsent = true) ∧
+    (wr.createIfAbsent = true → (applyW ops cat wr o).createIfAbsent = true) ∧
+    (wr.genEmptyID = true → (applyW ops cat wr o).genEmptyID = true) ∧
+    (wr.nilWritable = true → (applyW ops cat wr o).nilWritable = true) := by
   cases o <;> (try exact ⟨id, id, id, id⟩) <;> (try exact ⟨fun _ => rfl, id, id, id⟩) <;>
     (try exact ⟨id, fun _ => rfl, id, id⟩) <;> (try exact ⟨id, id, fun _ => rfl, id⟩) <;>
     (try exact ⟨id, id, id, fun _ => rfl⟩)
@@ -48,18 +48,18 @@ theorem applyW_flags_mono (ops : MsgOps M K) (wr : WriteReq M K) (o : WOpt M K) 
     | none => simp only [applyW, h]; exact ⟨id, id, id, id⟩
     | some u => simp only [applyW, h]; exact ⟨id, id, id, id⟩
 
-theorem foldl_flags_mono (ops : MsgOps M K) (opts : List (WOpt M K)) :
+theorem foldl_flags_mono (ops : MsgOps M K) (cat : K → K → K) (opts : List (WOpt M K)) :
     ∀ wr : WriteReq M K,
-    (wr.expectAbsent = true → (opts.foldl (applyW ops) wr).expectAbsent = true) ∧
-    (wr.createIfAbsent = true → (opts.foldl (applyW ops) wr).createIfAbsent = true) ∧
-    (wr.genEmptyID = true → (opts.foldl (applyW ops) wr).genEmptyID = true) ∧
-    (wr.nilWritable = true → (opts.foldl (applyW ops) wr).nilWritable = true) := by
+    (wr.expectAbsent = true → (opts.foldl (applyW ops cat) wr).expectAbsent = true) ∧
+    (wr.createIfAbsent = true → (opts.foldl (applyW ops cat) wr).createIfAbsent = true) ∧
+    (wr.genEmptyID = true → (opts.foldl (applyW ops cat) wr).genEmptyID = true) ∧
+    (wr.nilWritable = true → (opts.foldl (applyW ops cat) wr).nilWritable = true) := by
   induction opts with
   | nil => intro wr; exact ⟨id, id, id, id⟩
   | cons o opts ih =>
     intro wr
-    have h1 := applyW_flags_mono ops wr o
-    have h2 := ih (applyW ops wr o)
+    have h1 := applyW_flags_mono ops cat wr o
+    have h2 := ih (applyW ops cat wr o)
     simp only [List.foldl_cons]
     exact ⟨fun h => h2.1 (h1.1 h), fun h => h2.2.1 (h1.2.1 h), fun h => h2.2.2.1 (h1.2.2.1 h),
       fun h => h2.2.2.2 (h1.2.2.2 h)⟩
@@ -76,20 +76,20 @@ def WOpt.setsUpdateMask : WOpt M K → Bool
 
 /-- what the options after the last `WithUpdateMask` do to the mask it set: each `WithMoreUpdateMask`
 unites its paths in, unless the mask is nil -/
-def moreMasks (ops : MsgOps M K) (post : List (WOpt M K)) (m : Option K) : Option K :=
+def moreMasks (cat : K → K → K) (post : List (WOpt M K)) (m : Option K) : Option K :=
   post.foldl (fun u o => match o with
-    | .moreUpdateMask k => u.map (fun x => ops.union x (some k))
+    | .moreUpdateMask k => u.map (fun x => cat x k)
     | _ => u) m
 
-theorem foldl_updateMask (ops : MsgOps M K) (post : List (WOpt M K))
+theorem foldl_updateMask (ops : MsgOps M K) (cat : K → K → K) (post : List (WOpt M K))
     (hpost : ∀ o ∈ post, o.setsUpdateMask = false) :
-    ∀ wr : WriteReq M K, (post.foldl (applyW ops) wr).updateMask = moreMasks ops post wr.updateMask := by
+    ∀ wr : WriteReq M K, (post.foldl (applyW ops cat) wr).updateMask = moreMasks cat post wr.updateMask := by
   induction post with
   | nil => intro wr; rfl
   | cons o post ih =>
     intro wr
     have ho : o.setsUpdateMask = false := hpost o (List.mem_cons_self ..)
-    have ih' := ih (fun o' h' => hpost o' (List.mem_cons_of_mem _ h')) (applyW ops wr o)
+    have ih' := ih (fun o' h' => hpost o' (List.mem_cons_of_mem _ h')) (applyW ops cat wr o)
     simp only [List.foldl_cons, moreMasks] at ih' ⊢
     rw [ih']
     congr 1
@@ -131,8 +131,8 @@ theorem foldl_incl_keep (post : List (ROpt M K)) (hpost : ∀ o ∈ post, o.sets
     cases o <;> first | rfl | simp [ROpt.setsInclude] at ho
 
 /-- a step on option lists is the step on the computed records -/
-theorem stepO_eq (cfg : Cfg M K R) (s : CState M R) (op : COpO M K) :
-    Coll.stepO cfg s op = Coll.step cfg s (compileOp cfg.ops op) := by
+theorem stepO_eq (cat : K → K → K) (cfg : Cfg M K R) (s : CState M R) (op : COpO M K) :
+    Coll.stepO cat cfg s op = Coll.step cfg s (compileOp cfg.ops cat op) := by
   cases op with
   | get id opts => rfl
   | list opts => rfl
@@ -142,14 +142,14 @@ theorem stepO_eq (cfg : Cfg M K R) (s : CState M R) (op : COpO M K) :
     rfl
   | delete id opts => rfl
 
-theorem runO_eq (cfg : Cfg M K R) (ops : List (COpO M K)) :
-    ∀ s : CState M R, Coll.runO cfg s ops = Coll.run cfg s (ops.map (compileOp cfg.ops)) := by
+theorem runO_eq (cat : K → K → K) (cfg : Cfg M K R) (ops : List (COpO M K)) :
+    ∀ s : CState M R, Coll.runO cat cfg s ops = Coll.run cfg s (ops.map (compileOp cfg.ops cat)) := by
   induction ops with
   | nil => intro s; rfl
   | cons op ops ih => intro s; simp only [Coll.runO, Coll.run, List.map_cons, stepO_eq, ih]
 
-theorem vrunO_eq (cfg : Cfg M K R) (ops : List (VOpO M K)) :
-    ∀ s : VState M, Value.runO cfg s ops = Value.run cfg s (ops.map (compileVOp cfg.ops)) := by
+theorem vrunO_eq (cat : K → K → K) (cfg : Cfg M K R) (ops : List (VOpO M K)) :
+    ∀ s : VState M, Value.runO cat cfg s ops = Value.run cfg s (ops.map (compileVOp cfg.ops cat)) := by
   induction ops with
   | nil => intro s; rfl
   | cons op ops ih =>
@@ -168,15 +168,15 @@ def moreWritableOf (ops : MsgOps M K) (opts : List (WOpt M K)) (acc : Option K) 
     | .moreWritable m => some (match a with | none => ops.union m none | some w => ops.union w (some m))
     | _ => a) acc
 
-theorem foldl_writable (ops : MsgOps M K) (opts : List (WOpt M K)) :
+theorem foldl_writable (ops : MsgOps M K) (cat : K → K → K) (opts : List (WOpt M K)) :
     ∀ wr : WriteReq M K,
-      (opts.foldl (applyW ops) wr).moreWritable = moreWritableOf ops opts wr.moreWritable ∧
-      (opts.foldl (applyW ops) wr).nilWritable = (wr.nilWritable || opts.any WOpt.isAllWritable) := by
+      (opts.foldl (applyW ops cat) wr).moreWritable = moreWritableOf ops opts wr.moreWritable ∧
+      (opts.foldl (applyW ops cat) wr).nilWritable = (wr.nilWritable || opts.any WOpt.isAllWritable) := by
   induction opts with
   | nil => intro wr; simp [moreWritableOf]
   | cons o opts ih =>
     intro wr
-    have := ih (applyW ops wr o)
+    have := ih (applyW ops cat wr o)
     simp only [List.foldl_cons, moreWritableOf, List.any_cons] at this ⊢
     rw [this.1, this.2]
     cases o <;> (try exact ⟨rfl, by simp [applyW, WOpt.isAllWritable]⟩)
